@@ -1258,11 +1258,19 @@ fn sweep_case(ses: &mut Session, sut: &mut S, g: &mut Gen, v: usize, wk: WlKind,
     }
     points.sort();
     points.dedup();
+    let mut discount_done = false;
     for p in points {
         if p < sut.w.time() {
             continue;
         }
         do_step(ses, sut, &format!("t now={p}"));
+        // vending family: once the sale has started a discount may be set — also while a whitelist is still active;
+        // the whitelist price must keep applying to whitelist mints
+        if kind.is_vending() && !discount_done && p >= s && g.rng.chance(1, 2) {
+            discount_done = true;
+            let d = *g.rng.pick(&[55_000_000u128, 80_000_000, 60_000_000]);
+            do_step(ses, sut, &format!("menv what=discount arg={d} sender={ADMIN}"));
+        }
         battery(ses, sut, g, heavy);
         // swap probes: to the other whitelist and back (both succeed only while everything is inactive and not started)
         if g.rng.chance(1, 3) && kind != MinterKind::TokenMerge {
